@@ -14,8 +14,14 @@ from dask.dataframe.utils import (
 from dask.utils import M
 
 from dask_expr._accessor import Accessor, PropertyMap
-from dask_expr._expr import Blockwise, Elemwise, Projection
+from dask_expr._expr import (
+    Blockwise,
+    Elemwise,
+    Projection,
+    determine_column_projection,
+)
 from dask_expr._reductions import ApplyConcatApply
+from dask_expr._util import _convert_to_list
 
 
 class CategoricalAccessor(Accessor):
@@ -174,6 +180,25 @@ class Categorize(Blockwise):
             self.frame._meta, self.operand("categories"), self.operand("index")
         )
         return meta
+
+    def _simplify_up(self, parent, dependents):
+        if isinstance(parent, Projection):
+            # The categories mapping is keyed by the columns that are categorized,
+            # those have to stay available in the frame
+            columns = determine_column_projection(
+                self,
+                parent,
+                dependents,
+                additional_columns=list(self.operand("categories")),
+            )
+            columns = _convert_to_list(columns)
+            columns = [col for col in self.frame.columns if col in columns]
+            if columns == self.frame.columns:
+                return
+            return type(parent)(
+                type(self)(self.frame[columns], *self.operands[1:]),
+                *parent.operands[1:],
+            )
 
 
 class GetCategories(ApplyConcatApply):
